@@ -279,6 +279,7 @@ SCENARIOS = {
     'import-import-same-id': [[('import', 'K1', 'good')], [('import', 'K1', 'good2')]],
     'add2-add': [[('add_node', 'g', 'x'), ('add_node', 'g', 'z')], [('add_node', 'g', 'y')]],
     'import-extract': [[('import', 'K1', 'good')], [('extract', 'g')]],
+    'blank-extract': [[('blank', 'g', 'x')], [('extract', 'g')]],          # the graph being extracted grows meanwhile
     'blank-blank': [[('blank', 'g', 'x')], [('blank', 'g', 'y')]],
     'direct-direct': [[('import_direct', 'K1', 'good')], [('import_direct', 'K2', 'good2')]],
     'direct-blank': [[('import_direct', 'K1', 'good')], [('blank', 'g', 'x')]],
@@ -288,7 +289,7 @@ SCENARIOS = {
     'import-import-add': [[('import', 'K1', 'good')], [('import', 'K2', 'good')], [('add_node', 'g', 'x')]],
 }
 QUICK_SCEN = ['add-add-same-graph', 'add-add-other-graph', 'import-import-fresh', 'import-add', 'import-import-same-id',
-              'add2-add', 'import-extract', 'blank-blank', 'direct-direct', 'direct-blank', 'direct-import']
+              'add2-add', 'import-extract', 'blank-extract', 'blank-blank', 'direct-direct', 'direct-blank', 'direct-import']
 
 
 class Harness:
